@@ -32,12 +32,42 @@ MUTANTS = [
     ('c16-convert-skips-ctx', 'C16', 'malt/impl/api.py',
      "        with conversion_ctx:\n          return converted_call(f, args, kwargs, options=options)",
      "        if True:\n          return converted_call(f, args, kwargs, options=options)"),
-    ('c16-pop-no-identity', 'C16', 'malt/core/ag_ctx.py',
-     "    assert _control_ctx()[-1] is self\n    _control_ctx().pop()",
-     "    if _control_ctx()[-1] is self:\n      _control_ctx().pop()\n    elif len(_control_ctx()) > 2:\n      _control_ctx().pop()\n      _control_ctx().pop()"),
     ('c16-unspec-leaks-on-exc', 'C16', 'malt/impl/api.py',
      "    with ag_ctx.ControlStatusCtx(status=ag_ctx.Status.UNSPECIFIED):\n      return func(*args, **kwargs)",
      "    c = ag_ctx.ControlStatusCtx(status=ag_ctx.Status.UNSPECIFIED)\n    c.__enter__()\n    try:\n      r = func(*args, **kwargs)\n    except KeyError:\n      c.__exit__(None, None, None)\n      raise\n    c.__exit__(None, None, None)\n    return r"),
+    # ---- C10 ----
+    ('c10-no-recheck-under-lock', 'C10', 'malt/pyct/transpiler.py',
+     "        # Check again under lock.\n        if self._cache.has(fn, cache_subkey):",
+     "        # Check again under lock.\n        if False and self._cache.has(fn, cache_subkey):"),
+    ('c10-no-lock', 'C10', 'malt/pyct/transpiler.py',
+     "      with self._cache_lock:\n        # Check again under lock.",
+     "      if True:\n        # Check again under lock."),
+    ('c10-key-by-qualname', 'C10', 'malt/pyct/cache.py',
+     "    if hasattr(entity, '__code__'):\n      return entity.__code__\n    else:\n      return entity",
+     "    if hasattr(entity, '__code__'):\n      return _qual_key(entity)\n    else:\n      return entity\n\n\nclass _Q(object):\n  pass\n\n_QUAL = {}\n\ndef _qual_key(entity):\n  k = (getattr(entity, '__module__', None), getattr(entity, '__qualname__', None), entity.__code__.co_firstlineno)\n  if k not in _QUAL:\n    _QUAL[k] = _Q()\n  return _QUAL[k]"),
+    ('c10-subkey-ignores-user-requested', 'C10', 'malt/impl/api.py',
+     "  def get_caching_key(self, ctx):\n    return ctx.options",
+     "  def get_caching_key(self, ctx):\n    o = ctx.options\n    return (o.recursive, o.internal_convert_user_code, o.optional_features)"),
+    ('c10-options-eq-ignores-features', 'C10', 'malt/core/converter.py',
+     "  def as_tuple(self):\n    return (self.recursive, self.user_requested,\n            self.internal_convert_user_code, self.optional_features)",
+     "  def as_tuple(self):\n    return (self.recursive, self.user_requested,\n            self.internal_convert_user_code, len(self.optional_features))"),
+    ('c10-cache-instantiated-fn', 'C10', 'malt/pyct/transpiler.py',
+     "    transformed_fn = factory.instantiate(\n        globals_=fn.__globals__,",
+     "    if getattr(factory, '_inst', None) is not None:\n      return factory._inst, factory.module, factory.source_map\n    transformed_fn = factory._inst = factory.instantiate(\n        globals_=fn.__globals__,"),
+    ('c10-factory-remembers-first-defaults', 'C10', 'malt/pyct/transpiler.py',
+     "    if defaults:\n      new_fn.__defaults__ = defaults",
+     "    if defaults:\n      if getattr(self, '_first_defaults', None) is None:\n        self._first_defaults = defaults\n      new_fn.__defaults__ = self._first_defaults"),
+    ('c10-has-tests-bucket-only', 'C10', 'malt/pyct/cache.py',
+     "    if parent is None:\n      return False\n    return subkey in parent",
+     "    if parent is None:\n      return False\n    return bool(parent) or subkey in parent"),
+    ('c10-store-before-create', 'C10', 'malt/pyct/transpiler.py',
+     "          factory.create(\n              nodes, ctx.namer, future_features=ctx.info.future_features)\n          self._cache[fn][cache_subkey] = factory",
+     "          self._cache[fn][cache_subkey] = factory\n          factory.create(\n              nodes, ctx.namer, future_features=ctx.info.future_features)"),
+    ('c10-lock-no-finally', 'C10', 'malt/pyct/transpiler.py',
+     "      with self._cache_lock:\n        # Check again under lock.",
+     "      self._cache_lock.acquire()\n      if True:\n        # Check again under lock."),
+    ('c10-revert-f1', 'C10', None, 'git-revert', '5e04fcf'),
+    ('c10-revert-f3', 'C10', None, 'git-revert', 'f98cffd'),
 ]
 
 
@@ -46,11 +76,17 @@ def run(name, prop, rel, old, new, extra):
   repo = os.path.join(tmp, 'repo')
   try:
     shutil.copytree('/repo', repo, ignore=shutil.ignore_patterns('.git', '*.egg-info', '__pycache__'))
-    p = os.path.join(repo, rel)
-    s = open(p).read()
-    if s.count(old) != 1:
-      return name, 'ANCHOR-MISSING', ''
-    open(p, 'w').write(s.replace(old, new))
+    if old == 'git-revert':
+      d = subprocess.run(['git', '-C', '/repo', 'show', new], capture_output=True, text=True).stdout
+      r = subprocess.run(['patch', '-R', '-p1', '-d', repo], input=d, capture_output=True, text=True)
+      if r.returncode != 0:
+        return name, 'ANCHOR-MISSING (patch -R failed)', r.stdout[-300:]
+    else:
+      p = os.path.join(repo, rel)
+      s = open(p).read()
+      if s.count(old) != 1:
+        return name, 'ANCHOR-MISSING', ''
+      open(p, 'w').write(s.replace(old, new))
     t0 = time.time()
     r = subprocess.run([os.path.join(VERIF, 'check.py'), prop, '--tier', 'quick', '--repo', repo] + extra,
                        capture_output=True, text=True, timeout=1800)
